@@ -22,21 +22,24 @@ Implicit Types s : st W.
 
 (* a scheduler-internal move *)
 Definition sched s s' : Prop :=
-  loci s' = loci s /\ world s' = world s /\ nextid s' = nextid s /\ incl (queue s') (queue s).
+  loci s' = loci s /\ world s' = world s /\ nextid s' = nextid s /\ incl (queue s') (queue s)
+  /\ exists l, out s' = l ++ out s.
 
 Lemma sched_refl s : sched s s.
-Proof. repeat split; try reflexivity. apply incl_refl. Qed.
+Proof. repeat split; try reflexivity; [apply incl_refl | exists []; reflexivity]. Qed.
 
 Lemma sched_trans s1 s2 s3 : sched s1 s2 -> sched s2 s3 -> sched s1 s3.
 Proof.
-  intros (a1 & a2 & a3 & a4) (b1 & b2 & b3 & b4). repeat split; try congruence.
-  eapply incl_tran; eassumption.
+  intros (a1 & a2 & a3 & a4 & [l1 a5]) (b1 & b2 & b3 & b4 & [l2 b5]). repeat split; try congruence.
+  - eapply incl_tran; eassumption.
+  - exists (l2 ++ l1). rewrite b5, a5, app_assoc. reflexivity.
 Qed.
 
-Lemma sched_same s s' : loci s' = loci s -> world s' = world s -> nextid s' = nextid s -> queue s' = queue s -> sched s s'.
+Lemma sched_same s s' : loci s' = loci s -> world s' = world s -> nextid s' = nextid s -> queue s' = queue s ->
+  out s' = out s -> sched s s'.
 Proof.
-  intros H1 H2 H3 H4. split; [exact H1|]. split; [exact H2|]. split; [exact H3|]. rewrite H4.
-  apply incl_refl.
+  intros H1 H2 H3 H4 H5. split; [exact H1|]. split; [exact H2|]. split; [exact H3|]. rewrite H4, H5.
+  split; [apply incl_refl | exists []; reflexivity].
 Qed.
 
 Lemma sched_advance a b c s : sched s (advance a b c s).
@@ -46,10 +49,10 @@ Proof. apply sched_same; reflexivity. Qed.
 Lemma sched_set_stuck s : sched s (set_stuck s).
 Proof. apply sched_same; reflexivity. Qed.
 Lemma sched_emit o s : sched s (emit o s).
-Proof. apply sched_same; reflexivity. Qed.
+Proof. repeat split; try reflexivity; [apply incl_refl | exists [o]; reflexivity]. Qed.
 Lemma sched_discard s : sched s (discard s).
 Proof.
-  unfold discard. repeat split; try reflexivity; cbn [queue set_queue]. apply discard_dead_incl.
+  unfold discard. repeat split; try reflexivity; cbn [queue set_queue]; [apply discard_dead_incl | exists []; reflexivity].
 Qed.
 
 (* the state an event function entered by call c on s leaves behind (tap included) *)
